@@ -11,8 +11,10 @@ package common
 //@ spec NilIfEmpty(b []byte) bool = len(b) == 0 ==> b == nil
 //@ spec DepositOK(d *DepositData) bool = len(d.AssetKey) <= MaximumEncodingInt && len(d.Transaction) <= MaximumEncodingInt && IntegerEnc(d.Amount)
 //@ spec MintOK(m *MintData) bool = len(m.Group) <= MaximumEncodingInt && IntegerEnc(m.Amount)
-//@ spec InputOK(in *Input) bool = in != nil && in.Index <= InputIndexLimit && len(in.Genesis) <= MaximumEncodingInt && NilIfEmpty(in.Genesis) &&
+//@ -- InputEncOK: everything InputOK says except the index bound, which EncodeInput must ENFORCE itself on the untruncated value (panics when).
+//@ spec InputEncOK(in *Input) bool = in != nil && len(in.Genesis) <= MaximumEncodingInt && NilIfEmpty(in.Genesis) &&
 //@       (in.Deposit != nil ==> DepositOK(in.Deposit)) && (in.Mint != nil ==> MintOK(in.Mint))
+//@ spec InputOK(in *Input) bool = in != nil && in.Index <= InputIndexLimit && InputEncOK(in)
 //@ spec WithdrawalOK(w *WithdrawalData) bool = len(w.Address) <= MaximumEncodingInt && len(w.Tag) <= MaximumEncodingInt
 //@ spec KeysOK(ks []*crypto.Key) bool = len(ks) <= SliceCountLimit && forall k int :: 0 <= k && k < len(ks) ==> ks[k] != nil
 //@ spec OutputOK(o *Output) bool = o != nil && IntegerEnc(o.Amount) && KeysOK(o.Keys) && len(o.Script) <= MaximumEncodingInt && NilIfEmpty(o.Script) &&
@@ -193,9 +195,13 @@ package common
 //@   ensures [ownbuf] arr(enc.buf) == old(arr(enc.buf)) || fresh(enc.buf)
 //@   ensures len(enc.buf) == old(len(enc.buf)) + 2 + bytelen(val(d))
 
+//@ -- Injectivity of the index field: the guard is EXACT on the mathematical value of in.Index (a uint): EncodeInput returns only for
+//@ -- in.Index <= InputIndexLimit (panic-iff) and panics only above it (panic-spec), so no index >= 65536 can be narrowed into an accepted
+//@ -- 16-bit field (k and k + 65536*m never share an encoding). Callers must prove the bound (EncodeTransaction: from DecodedTx).
 //@ func (enc *Encoder) EncodeInput
 //@   property C06
-//@   requires enc != nil && InputOK(in)
+//@   requires enc != nil && InputEncOK(in)
+//@   panics when in.Index > InputIndexLimit
 //@   modifies enc.buf, enc.buf[*]
 //@   ensures [ownbuf] arr(enc.buf) == old(arr(enc.buf)) || fresh(enc.buf)
 
@@ -227,10 +233,30 @@ package common
 //@   modifies enc.buf, enc.buf[*]
 //@   ensures [ownbuf] arr(enc.buf) == old(arr(enc.buf)) || fresh(enc.buf)
 //@   ensures result == enc.buf
+//@   -- DEFINITION of TxBody/TxSigs (assumed): started on an empty buffer, the bytes produced are cat(TxBody(payload fields), TxSigs(signature fields)),
+//@   -- evaluated in the state at the return. Holds because the body is deterministic, writes the signature section last, and reads only
+//@   -- memory reachable from signed -- provided the encoder's spare capacity is not such memory: the only two callers
+//@   -- (marshalWithCapacity, payloadMarshal) pass an encoder they have just allocated.
+//@   assumes [def-TxBytes] old(len(enc.buf)) == 0 ==> seq(result) == TxBytes(signed)
 //@   loop 0 invariant enc != nil && DecodedTx(signed) && (arr(enc.buf) == old(arr(enc.buf)) || fresh(enc.buf))
 //@   loop 1 invariant enc != nil && DecodedTx(signed) && (arr(enc.buf) == old(arr(enc.buf)) || fresh(enc.buf))
 //@   loop 2 invariant enc != nil && DecodedTx(signed) && (arr(enc.buf) == old(arr(enc.buf)) || fresh(enc.buf))
 //@   loop 3 invariant enc != nil && DecodedTx(signed) && (arr(enc.buf) == old(arr(enc.buf)) || fresh(enc.buf))
+
+// ───────────── byte level: WHAT the encoder produces (TxBody / TxSigs / MarshalBytes / PayloadBytes) ─────────────
+// Byte strings are abstract values (seq / cat, README "T-BYTES"). The encoding of a transaction is the concatenation of
+//   TxBody(version, asset, inputs, outputs, references, extra)  -- the payload part: a function of the six payload FIELD VALUES and of the
+//                                                                  memory reachable from a Transaction (`reads reach(Transaction)`), nothing else
+//   TxSigs(signature maps, aggregated signature)                -- the authorisation part, written last by EncodeTransaction
+// Both are uninterpreted: they are DEFINED by what (*Encoder).EncodeTransaction appends to an empty buffer ([def-TxBytes] below, the one
+// assumed clause of this layer). Everything else is proved from it: marshalWithCapacity/marshal/Marshal return MarshalBytes(ver),
+// payloadMarshal returns PayloadBytes(ver) = cat(TxBody(payload fields), TxSigs(nil, nil)), which mentions no authorisation field, and
+// unmarshalVersionedTransaction accepts val only if MarshalBytes(result) == seq(val).
+//@ uninterp TxBody(version uint8, asset crypto.Hash, inputs []*Input, outputs []*Output, refs []crypto.Hash, extra []byte) mathint reads reach(Transaction)
+//@ uninterp TxSigs(sigs []map[uint16]*crypto.Signature, agg *AggregatedSignature) mathint reads reach(SignedTransaction)
+//@ spec TxBytes(tx *SignedTransaction) mathint = cat(TxBody(tx.Version, tx.Asset, tx.Inputs, tx.Outputs, tx.References, tx.Extra), TxSigs(tx.SignaturesMap, tx.AggregatedSignature))
+//@ spec MarshalBytes(ver *VersionedTransaction) mathint = TxBytes(&ver.SignedTransaction)
+//@ spec PayloadBytes(ver *VersionedTransaction) mathint = cat(TxBody(ver.Version, ver.Asset, ver.Inputs, ver.Outputs, ver.References, ver.Extra), TxSigs(nil, nil))
 
 // ───────────── version.go ─────────────
 
@@ -239,11 +265,16 @@ package common
 //@   property C06
 //@   requires ver != nil && capacity >= 0 && DecodedTx(&ver.SignedTransaction)
 //@   modifies nothing
+//@   -- the frame is CHECKED: in particular no byte of the cached payload encoding ver.pmbytes[..cap] is written (the result is a new buffer)
+//@   ensures [bytes] seq(result) == MarshalBytes(ver)
+//@   ensures [fresh] cap(result) == 0 || fresh(result)
 
 //@ func (ver *VersionedTransaction) marshal
 //@   property C06
 //@   requires ver != nil && DecodedTx(&ver.SignedTransaction)
 //@   modifies nothing
+//@   ensures [bytes] seq(result) == MarshalBytes(ver)
+//@   ensures [fresh] cap(result) == 0 || fresh(result)
 
 //@ -- Root of (a),(b),(d): NO precondition - total on every byte string.
 //@ -- [canonical] is checked at every return: on the accepting path the bytes produced by ver.marshalWithCapacity(len(val)) for the
@@ -255,10 +286,13 @@ package common
 //@   ensures [size] err == nil ==> len(val) <= config.TransactionMaximumSize
 //@   ensures [reject] err != nil ==> result0 == nil
 //@   hint return [canonical] err == nil ==> result0 == ver && bytes.Equal(canonical, val)
+//@   -- the property statement, heap level: the accepted byte string IS the re-encoding of the returned transaction (in the returned state)
+//@   ensures [canonical-bytes] err == nil ==> MarshalBytes(result0) == seq(val)
 
 //@ func UnmarshalVersionedTransaction
 //@   property C06
 //@   modifies nothing
+//@   ensures [canonical-bytes] err == nil ==> MarshalBytes(result0) == seq(val)
 //@   ensures [decoded] err == nil ==> result0 != nil && fresh(result0) && DecodedTx(&result0.SignedTransaction)
 //@   ensures [size] err == nil ==> len(val) <= config.TransactionMaximumSize
 //@   -- added for C23 (storage cache), ASSUMED: the decoded object remembers the byte string it was decoded from. TxSrc(ver) is a function of the
@@ -273,6 +307,9 @@ package common
 //@   property C06
 //@   requires ver != nil && TxPayloadOK(&ver.SignedTransaction.Transaction)
 //@   modifies nothing
+//@   -- the hashed bytes are a function of the payload fields only: PayloadBytes mentions neither ver.SignaturesMap nor ver.AggregatedSignature
+//@   ensures [payload-only] seq(result) == PayloadBytes(ver)
+//@   ensures [fresh] cap(result) == 0 || fresh(result)
 //@   hint after EncodeTransaction [nosigs] signed != nil && fresh(signed) && signed.SignaturesMap == nil && signed.AggregatedSignature == nil
 //@   hint after EncodeTransaction [payload] signed.Version == ver.Version && signed.Asset == ver.Asset && signed.Inputs == ver.Inputs && signed.Outputs == ver.Outputs &&
 //@       signed.References == ver.References && signed.Extra == ver.Extra
